@@ -132,18 +132,18 @@ def _notes_by_zid(text):
 
 
 def _strip_added(body_after: str, body_before: str) -> bool:
-    """Body after the move = body before with extra metadata words inserted
-    right after the ZID (first line only)."""
+    """Body after the move = body before with extra metadata words inserted as ONE run
+    right after the leading ZID (first line only); every other word stays where it was."""
     la, lb = body_after.split("\n"), body_before.split("\n")
     if la[1:] != lb[1:]:
         return False
     wa, wb = la[0].split(" "), lb[0].split(" ")
-    # wb must be a subsequence of wa that keeps the leading ZID words
-    i = 0
-    for w in wa:
-        if i < len(wb) and w == wb[i]:
-            i += 1
-    return i == len(wb)
+    if len(wa) < len(wb) or not wb:
+        return False
+    # position of the note's own ZID: first word, or second after a modify date
+    k = 1 if (len(wb) > 1 and re.fullmatch(r"\d{6}", wb[0]) and "#" in wb[1]) else 0
+    extra = len(wa) - len(wb)
+    return wa[:k + 1] == wb[:k + 1] and wa[k + 1 + extra:] == wb[k + 1:]
 
 
 def _run_case(ctx, case) -> F.Outcome:
